@@ -155,7 +155,9 @@ def gen_pt(rng, depth, names):
     if not free:
         return body
     keys = [n for n in free if rng.random() < 0.6] or [rng.choice(free)]
-    return ['map', [[n, expr_pool(rng, names)] for n in keys], body]
+    mp = [[n, expr_pool(rng, names)] for n in keys]
+    # a named MappingPT is not merged into an enclosing MappingPT at construction: its MappedScope really stacks
+    return ['map', mp, body, True] if rng.random() < 0.35 else ['map', mp, body]
 
 
 def pt_coq(p):
@@ -329,6 +331,10 @@ def gen_one(rng, kind, depth):
         if not sizes_ok(p, vals, V, ups):
             continue
         case = {'kind': kind, 'pt': p, 'vals': vals, 'V': sorted(V), 'ups': ups}
+        if rng.random() < 0.25:
+            case['vt'] = rng.choice(VTS[2:])
+        if rng.random() < 0.25:
+            case['alias'] = True
         if kind == 'tree':
             case['pl'] = rng.choice(['none', 'none', 'cleanup', 'cleanup', 'flat0', 'flat1', 'flat2', 'flat2', 'flat3'])
         else:
@@ -338,6 +344,214 @@ def gen_one(rng, kind, depth):
             case['mx'] = rng.choice([3, 4, 5, 6, 8])
         return case
     raise RuntimeError('generator could not produce a case')
+
+
+
+# ---------------------------------------------------------------------------------------------------------------------
+# boundary families (round 3): input classes the random grammar reaches only by luck.  Every family is a fixed list of
+# template shapes (deterministic for every seed) x pipelines; rng only varies atoms, value types and aliasing.
+def A_(i):
+    return ['atom', i % N_ATOMS]
+
+
+def R_(e, body, meas=False):
+    return ['rep', e, meas, body]
+
+
+def S_(*l):
+    return ['seq', list(l)]
+
+
+def M_(mp, body, named=False):
+    return ['map', [[n, e] for n, e in mp], body, True] if named else ['map', [[n, e] for n, e in mp], body]
+
+
+def add_(a, b):
+    return ['+', a, b]
+
+
+def mul_(a, b):
+    return ['*', a, b]
+
+
+JPN, JCN = 'parent_repetition_count', 'child_repetition_count'
+VTS = ['int', 'int', 'np', 'float', 'tt', 'npf', 'np32']
+TREE_PLS = ['none', 'cleanup', 'flat1', 'flat2']
+
+
+def fam_zero_mid():
+    """a volatile parameter is updated to the boundary value 0 in the middle of a sequence of updates while the count
+    that depends on it stays positive (count n+2, 2n+1, (m+1)*n after merging, a mapped offset)"""
+    n, m, k = V_('n'), V_('m'), V_('k')
+    seqs = [[{'n': 4}, {'n': 0}, {'n': 1}, {'n': 0}], [{'n': 0}], [{'n': 0}, {'n': 0}], [{'n': 3}, {'n': 0}, {'n': 3}]]
+    out = []
+    shapes = [
+        (R_(add_(n, C_(2)), A_(0)), {'n': 2}, ['n'], 'n'),
+        (R_(add_(n, C_(1)), S_(A_(0), A_(1))), {'n': 2}, ['n'], 'n'),
+        (R_(n, R_(add_(m, C_(1)), A_(0))), {'n': 2, 'm': 1}, ['n', 'm'], 'm'),
+        (R_(add_(m, C_(1)), R_(n, A_(0))), {'n': 2, 'm': 1}, ['m'], 'm'),
+        (M_([('k', add_(n, C_(1)))], R_(k, A_(0))), {'n': 2}, ['n'], 'n'),
+        (M_([('k', add_(n, C_(1)))], R_(k, S_(A_(0), A_(2))), True), {'n': 2}, ['n'], 'n'),
+        (S_(R_(add_(mul_(C_(2), n), C_(1)), A_(0)), R_(add_(n, m), A_(1))), {'n': 1, 'm': 1}, ['n'], 'n'),
+        (R_(C_(2), S_(R_(add_(n, C_(1)), A_(0)), A_(1))), {'n': 1}, ['n'], 'n'),
+        (S_(R_(add_(n, C_(1)), S_(A_(0), A_(1))), R_(C_(2), S_(A_(2), A_(3)))), {'n': 2}, ['n'], 'n'),
+        (S_(R_(C_(2), S_(R_(add_(n, C_(2)), A_(0)), A_(1))), R_(add_(n, C_(1)), S_(A_(1), A_(0)))), {'n': 1}, ['n'], 'n'),
+    ]
+    for i, (pt, vals, V, var) in enumerate(shapes):
+        for j, sq in enumerate(seqs):
+            if (i + j) % 2 and j > 1:
+                continue
+            ups = [{var: list(us.values())[0]} for us in sq]
+            out.append((pt, vals, V, ups))
+    return out
+
+
+def fam_vol_neighbour_one():
+    """Tabor, advanced mode: a sequencer table with a volatile count that is exactly 1 (or 2) at instantiation next
+    to a fixed table shorter than min_seq_len; the short table first / last / on both sides; also the volatile table
+    itself too short, and a volatile root"""
+    n, m = V_('n'), V_('m')
+    lefts = [[R_(C_(2), A_(0)), A_(1)], [A_(0), A_(1)], [R_(C_(3), A_(0))], [A_(4)], [R_(C_(2), S_(A_(0), A_(1)))]]
+    exprs = [n, mul_(n, m), ['-', mul_(C_(2), n), C_(1)], add_(['-', mul_(n, m), m], C_(1))]
+    out = []
+    for li, left in enumerate(lefts):
+        for vlen in (1, 2, 3):
+            e = exprs[(li + vlen) % len(exprs)]
+            vb = R_(e, S_(*[A_(2 + q) for q in range(vlen)]) if vlen > 1 else A_(2))
+            for order in ('LV', 'VL', 'LVL', 'VLV'):
+                if order == 'LV':
+                    blocks = left + [vb]
+                elif order == 'VL':
+                    blocks = [vb] + left
+                elif order == 'LVL':
+                    blocks = left + [vb] + left
+                else:
+                    blocks = [vb] + left + [R_(add_(n, C_(1)), S_(A_(3), A_(1), A_(0)))]
+                for n0 in (1, 2):
+                    if n0 == 2 and (li + vlen) % 2:
+                        continue
+                    out.append((S_(*blocks), {'n': n0, 'm': 1}, ['n'], [{'n': 3}, {'n': 1}]))
+    for vlen in (1, 2, 3):       # volatile root
+        out.append((R_(n, S_(*[A_(q) for q in range(vlen)]) if vlen > 1 else A_(0)), {'n': 1}, ['n'], [{'n': 3}, {'n': 1}]))
+        out.append((R_(n, R_(C_(2), S_(*[A_(q) for q in range(vlen + 1)]))), {'n': 1}, ['n'], [{'n': 2}]))
+    return out
+
+
+def fam_named_maps():
+    """the count reaches the volatile parameter through two or three STACKED MappedScopes (inner MappingPT named, so
+    the mappings are not collapsed at construction)"""
+    n, k, x, y = V_('n'), V_('k'), V_('x'), V_('y')
+    inner = lambda body, nm=True: M_([('n', add_(k, C_(1)))], body, nm)
+    out = []
+    bodies = [R_(n, A_(0)), R_(n, S_(A_(0), A_(1))), S_(R_(n, A_(0)), R_(add_(n, C_(1)), A_(1))), R_(C_(2), S_(R_(n, A_(0)), A_(1))),
+              R_(n, R_(x, A_(2)))]
+    for b in bodies:
+        for nm_in, nm_out in ((True, False), (True, True), (False, True)):
+            pt = M_([('k', mul_(C_(2), x))], inner(b, nm_in), nm_out)
+            out.append((pt, {'x': 1}, ['x'], [{'x': 2}, {'x': 3}, {'x': 1}]))
+        pt3 = M_([('x', add_(y, C_(1)))], M_([('k', mul_(C_(2), x))], inner(b), True), True)
+        out.append((pt3, {'y': 1}, ['y'], [{'y': 2}, {'y': 0}]))
+        # the same name rebound on both levels: n -> n + 1 inside n -> 2*n
+        pt4 = M_([('n', mul_(C_(2), n))], M_([('n', add_(n, C_(1)))], b if b[0] != 'rep' or b[3][0] != 'rep' else bodies[0], True))
+        out.append((pt4, {'n': 1}, ['n'], [{'n': 2}, {'n': 1}]))
+    return out
+
+
+def fam_shared_before():
+    """Tabor, advanced mode: identical (de-duplicated) sequencer tables BEFORE the table that holds a volatile entry,
+    so that advanced-sequencer index != sequencer-table index; also the volatile table itself repeated"""
+    n = V_('n')
+    B = R_(C_(2), S_(A_(0), A_(1)))
+    B2 = R_(C_(3), S_(A_(1), A_(0)))
+    Vt = R_(C_(2), S_(R_(n, A_(2)), A_(3)))
+    Vt2 = R_(C_(2), S_(A_(3), R_(add_(n, C_(1)), A_(2))))
+    Va = R_(n, S_(A_(2), A_(4)))
+    T = R_(C_(3), S_(A_(3), A_(4)))
+    shapes = [[B, B, Vt], [B, B, Vt, T], [B, B2, B, Vt, T], [B, B, B, Vt, Vt, T], [Vt, B, B, Vt], [B, B, Vt, Vt2, T],
+              [B, B, Va, T], [B, B, Va, Vt, B], [B, B2, B2, B, Vt2, T], [T, T, T, Vt], [B, B, R_(C_(1), S_(R_(n, A_(2)), A_(3))), T]]
+    out = []
+    for sh in shapes:
+        for n0, ups in ((1, [{'n': 3}]), (2, [{'n': 4}, {'n': 1}])):
+            out.append((S_(*sh), {'n': n0}, ['n'], ups))
+    return out
+
+
+def fam_same_param_twice():
+    """the same volatile parameter in two counts (siblings, nested -> merged product, under a mapping that rebinds the
+    name to an expression of itself, under a swap mapping)"""
+    n, m = V_('n'), V_('m')
+    out = []
+    shapes = [
+        (S_(R_(n, A_(0)), R_(add_(n, C_(1)), A_(1))), {'n': 2}, ['n']),
+        (R_(n, R_(n, A_(0))), {'n': 2}, ['n']),
+        (R_(n, S_(R_(mul_(C_(2), n), A_(0)), A_(1))), {'n': 1}, ['n']),
+        (S_(R_(n, A_(0)), M_([('n', add_(n, C_(1)))], R_(n, A_(1)))), {'n': 1}, ['n']),
+        (S_(R_(n, A_(0)), M_([('n', add_(n, C_(1)))], R_(n, A_(1)), True)), {'n': 1}, ['n']),
+        (M_([('n', mul_(C_(2), n))], R_(n, A_(0))), {'n': 1}, ['n']),
+        (M_([('n', m), ('m', n)], S_(R_(n, A_(0)), R_(m, A_(1)))), {'n': 1, 'm': 2}, ['n']),
+        (M_([('n', m), ('m', n)], R_(n, R_(m, A_(1))), True), {'n': 1, 'm': 2}, ['m']),
+        (M_([('n', m), ('m', n)], R_(n, R_(m, A_(1)))), {'n': 1, 'm': 2}, ['n', 'm']),
+        (R_(C_(2), S_(R_(n, A_(0)), R_(n, A_(1)), R_(n, A_(0)))), {'n': 1}, ['n']),
+        (S_(R_(n, S_(A_(0), A_(1))), R_(n, S_(A_(0), A_(1))), R_(C_(2), S_(R_(n, A_(2)), A_(3)))), {'n': 2}, ['n']),
+    ]
+    for pt, vals, V in shapes:
+        v = V[0]
+        out.append((pt, vals, V, [{v: 3}, {v: 1}]))
+        out.append((pt, vals, V, [{v: 2}, {v: 2}, {v: 0}]))
+    return out
+
+
+def fam_internal_names():
+    """template parameters that are called like the operand names Loop._merge_single_child uses internally"""
+    P, C = V_(JPN), V_(JCN)
+    out = []
+    for outer, inner_ in ((P, C), (C, P), (P, P), (C, C), (mul_(P, C), C), (C, add_(P, C))):
+        for V in ([JPN], [JCN], [JPN, JCN]):
+            pt = R_(outer, R_(inner_, A_(0)))
+            used = sorted(set(e_vars(outer) + e_vars(inner_)))
+            Vv = [v for v in V if v in used]
+            if not Vv:
+                continue
+            out.append((pt, {u: 1 + (u == JCN) for u in used}, Vv, [{Vv[0]: 3}, {Vv[-1]: 1}]))
+    return out
+
+
+FAMILIES = [('zero_mid', fam_zero_mid), ('vol_neighbour_one', fam_vol_neighbour_one), ('named_maps', fam_named_maps),
+            ('shared_before', fam_shared_before), ('same_param_twice', fam_same_param_twice),
+            ('internal_names', fam_internal_names)]
+TABOR_FAMS = {'vol_neighbour_one', 'shared_before'}
+
+
+def family_cases(rng, tier):
+    cases = []
+    for fname, fn in FAMILIES:
+        for idx, (pt, vals, V, ups) in enumerate(fn()):
+            if not sizes_ok(pt, vals, set(V), ups):
+                raise RuntimeError('family %s shape %d too large' % (fname, idx))
+            base = {'pt': pt, 'vals': dict(vals), 'V': sorted(V), 'ups': ups, 'fam': fname}
+            variants = []
+            if fname in TABOR_FAMS:
+                grid = [(mn, mx, cl, md) for mn in (2, 3) for mx in (4, 6, 8) for cl in (True, False)
+                        for md in (None, 'advanced')] if fname == 'vol_neighbour_one' else \
+                       [(mn, mx, cl, md) for mn in (1, 2) for mx in (6, 8) for cl in (True, False) for md in (None, 'advanced')]
+                pick = grid if tier == 'thorough' else [grid[(idx * 5 + j * 7) % len(grid)] for j in range(2)]
+                for mn, mx, cl, md in pick:
+                    variants.append({'kind': 'tabor', 'cl': cl, 'mode': md, 'mn': mn, 'mx': mx})
+            else:
+                pls = TREE_PLS + ['flat0', 'flat3'] if tier == 'thorough' else [TREE_PLS[idx % 4], TREE_PLS[(idx + 1 + idx // 4) % 4]]
+                for pl in dict.fromkeys(pls):
+                    variants.append({'kind': 'tree', 'pl': pl})
+                tg = [(mn, mx, cl, md) for mn in (1, 2, 3) for mx in (4, 8) for cl in (True, False) for md in (None, 'single', 'advanced')]
+                pick = tg if tier == 'thorough' else [tg[(idx * 7 + 3) % len(tg)]]
+                for mn, mx, cl, md in pick:
+                    variants.append({'kind': 'tabor', 'cl': cl, 'mode': md, 'mn': mn, 'mx': mx})
+            for v in variants:
+                c = dict(base)
+                c.update(v)
+                c['vt'] = rng.choice(VTS)
+                c['alias'] = rng.random() < 0.3
+                cases.append(c)
+    return cases
 
 
 FRAC_VALUES = ['1/2', '3/2', '5/2', '7/2', '-1/2', '-3/2', '5/4', '11/4', '2', '3', '1', '0', '4']
@@ -390,7 +604,7 @@ def small_templates():
 
 
 def gen_cases(rng, tier, ctx):
-    cases = []
+    cases = family_cases(rng, tier)
     n_tree, n_tab = (420, 300) if tier == 'quick' else (3000, 2400)
     for i in range(n_tree):
         cases.append(gen_one(rng, 'tree', rng.choice([2, 3, 3, 4])))
@@ -444,17 +658,74 @@ def _atoms():
     return _ATOMS
 
 
-def build_pt(p):
+_UID = [0]
+
+
+def build_pt(p, memo=None):
+    """memo (a dict) switches aliasing on: structurally identical sub-templates become the SAME template object"""
     from qupulse.pulses import SequencePT, RepetitionPT, MappingPT
     k = p[0]
     if k == 'atom':
         return _atoms()[p[1]]
+    key = None
+    if memo is not None:
+        key = vlib.canonical_hash(p)
+        if key in memo:
+            return memo[key]
     if k == 'seq':
-        return SequencePT(*[build_pt(q) for q in p[1]])
-    if k == 'rep':
-        return RepetitionPT(build_pt(p[3]), e_str(p[1]), measurements=[('M', 0, 1)] if p[2] else None)
-    return MappingPT(build_pt(p[2]), parameter_mapping={n: e_str(e) for n, e in p[1]},
-                     allow_partial_parameter_mapping=True)
+        r = SequencePT(*[build_pt(q, memo) for q in p[1]])
+    elif k == 'rep':
+        r = RepetitionPT(build_pt(p[3], memo), e_str(p[1]), measurements=[('M', 0, 1)] if p[2] else None)
+    else:
+        ident = None
+        if len(p) > 3 and p[3]:
+            _UID[0] += 1
+            ident = 'c15_map_%d' % _UID[0]
+        r = MappingPT(build_pt(p[2], memo), parameter_mapping={n: e_str(e) for n, e in p[1]},
+                      allow_partial_parameter_mapping=True, identifier=ident)
+    if memo is not None:
+        memo[key] = r
+    return r
+
+
+_CASE_PT = {}
+
+
+def case_pt(case):
+    """the template object of a case; with case['alias'] it is built once (shared sub-templates) and reused for the
+    instantiation and for every fresh re-instantiation"""
+    if not case.get('alias'):
+        return build_pt(case['pt'])
+    key = vlib.canonical_hash(case['pt'])
+    if key not in _CASE_PT:
+        _CASE_PT.clear()
+        _CASE_PT[key] = build_pt(case['pt'], {})
+    return _CASE_PT[key]
+
+
+def typed(v, vt):
+    """an integer value handed over as another numeric type (the value is the same number)"""
+    if vt in (None, 'int') or not isinstance(v, int):
+        return v
+    if vt == 'np':
+        import numpy as np
+        return np.int64(v)
+    if vt == 'np32':
+        import numpy as np
+        return np.int32(v)
+    if vt == 'float':
+        return float(v)
+    if vt == 'npf':
+        import numpy as np
+        return np.float64(v)
+    if vt == 'tt':
+        from qupulse.utils.types import TimeType
+        return TimeType.from_fraction(v, 1)
+    raise ValueError(vt)
+
+
+def typed_dict(d, vt):
+    return {k: typed(v, vt) for k, v in d.items()}
 
 
 def _wf_id(wf):
@@ -504,7 +775,7 @@ def _update_tree(loop, us):
 def _tree_pipeline(case, vals):
     """-> {'err'} | {'none'} | {'tree', 'warn'} and the program"""
     from qupulse.program.loop import VolatileModificationWarning
-    pt = build_pt(case['pt'])
+    pt = case_pt(case)
     with warnings.catch_warnings(record=True) as ws:
         warnings.simplefilter('always')
         try:
@@ -556,7 +827,7 @@ def obs_tabor(tp, warn):
 def _tabor_pipeline(case, vals):
     from qupulse.program.loop import VolatileModificationWarning
     from qupulse.program.volatile import VolatileRepetitionCount
-    pt = build_pt(case['pt'])
+    pt = case_pt(case)
     with warnings.catch_warnings(record=True) as ws:
         warnings.simplefilter('always')
         try:
@@ -726,12 +997,13 @@ def _run(case):
         events = sorted(set(EVENTS))
         after, fresh = [], []
         cur = dict(vals)
+        vt = case.get('vt')
         for us in case['ups']:
             for k, v in us.items():
                 if k in cur:
-                    cur[k] = v
+                    cur[k] = typed(v, vt)
             if prog is not None:
-                _update_tree(prog, us)
+                _update_tree(prog, typed_dict(us, vt))
                 after.append(obs_tree(prog))
             fresh.append(_tree_pipeline(case, cur)[0])
         return {'before': before, 'after': after, 'fresh': fresh, 'events': events}
@@ -739,12 +1011,13 @@ def _run(case):
     events = sorted(set(EVENTS))
     after, fresh = [], []
     cur = dict(vals)
+    vt = case.get('vt')
     for us in case['ups']:
         for k, v in us.items():
             if k in cur:
-                cur[k] = v
+                cur[k] = typed(v, vt)
         if tp is not None:
-            mods = tp.update_volatile_parameters(us)
+            mods = tp.update_volatile_parameters(typed_dict(us, vt))
             ms = []
             for k, e in mods.items():
                 if isinstance(k, int):
@@ -853,6 +1126,17 @@ def nontrivial(case, obs):
     return any(a['mods'] for a in obs['after'])
 
 
+def _has_named_map(p):
+    k = p[0]
+    if k == 'atom':
+        return False
+    if k == 'seq':
+        return any(_has_named_map(q) for q in p[1])
+    if k == 'rep':
+        return _has_named_map(p[3])
+    return (len(p) > 3 and bool(p[3])) or _has_named_map(p[2])
+
+
 def histogram_keys(case, obs):
     keys = [case['kind']]
     if case['kind'] == 'frac':
@@ -876,6 +1160,16 @@ def histogram_keys(case, obs):
         keys.append('tabor:cleanup=%s' % case['cl'])
     keys.append('volatile:%d' % len(case['V']))
     keys.append('updates:%d' % len(case['ups']))
+    if case.get('fam'):
+        keys.append('family:' + case['fam'])
+    if case.get('vt') not in (None, 'int'):
+        keys.append('update_value_type:' + case['vt'])
+    if case.get('alias'):
+        keys.append('aliased_template_objects')
+    if _has_named_map(case['pt']):
+        keys.append('named_mapping')
+    if any(v == 0 for us in case['ups'] for v in us.values()):
+        keys.append('update_to_zero')
     if 'before' in obs:
         b = obs['before']
         keys.append('before:' + ('err' if 'err' in b else 'none' if 'none' in b else 'warn' if b.get('warn') else 'ok'))
@@ -944,7 +1238,13 @@ def classify(case, obs):
                 if len(k) == 2:
                     tabs_of.setdefault((b['adv'][k[0]][1], k[1]), set()).add(k[0])
             if any(len(s) > 1 for s in tabs_of.values()):
-                return 'C15-tabor-shared-volatile-table'
+                # ... and a fresh compilation with the updated values does not share the tables in the same way (the
+                # counts that were equal at instantiation differ now); when no fresh compilation exists the sharing
+                # cannot be compared and the broad predicate stays
+                pat = [e[1] for e in b['adv']]
+                fr = [f for f in obs.get('fresh', []) if 'adv' in f]
+                if not fr or any([e[1] for e in f['adv']] != pat for f in fr):
+                    return 'C15-tabor-shared-volatile-table'
     return None
 
 
